@@ -91,7 +91,11 @@ func (e *Environment) BaseInfo() *BigMap {
 
 func (e *Environment) Info() Object {
 	allKeys := make([]Object, e.depth)
-	info := e.BaseInfo()
+	// A map of its own each time (on top of the cached base): x = info is a value like any other, later
+	// evaluations of info, or changes of x, don't show in the other.
+	base := e.BaseInfo()
+	info := &BigMap{kv: make([]keyValuePair, len(base.kv), len(base.kv)+2)} // + globals and stack
+	copy(info.kv, base.kv)
 	for {
 		keys := make([]string, 0, len(e.store))
 		for k := range e.store {
